@@ -784,6 +784,9 @@ class MultiStream(Stream):
             data[phase_index, IDs_index] = other_data[phase_index, IDs_index]
             if remove: other_data[phase_index, IDs_index] = 0.
         else:
+            for row in data.rows:
+                # Data of a phase stream of this stream is emptied before being read
+                if row is other_data: other_data = other_data.copy(); break
             data[:] = 0.
             other_phase_index = self.imol.get_phase_index(other.phase)
             if phase is ... or phase_index == other_phase_index:
